@@ -25,8 +25,32 @@ pub fn run(args: &Args) {
     }
 }
 
+/// Sub-microsecond part added to every mock clock reading. The specification's wall clock is in
+/// microseconds (what `Timestamp` stores); the nanoseconds the OS clock reports on top of it must never
+/// matter. `Fixed(n)` = always n ns, `Cycle(k)` = the next of 0, 1, 500, 999 ns on every reading.
+#[derive(Clone, Copy)]
+enum Nanos {
+    Fixed(u32),
+    Cycle(usize),
+}
+const NANO_OFFSETS: [u32; 4] = [0, 1, 500, 999];
+thread_local! {
+    static NANOS: std::cell::Cell<Nanos> = const { std::cell::Cell::new(Nanos::Fixed(0)) };
+}
+
+fn set_nanos(n: Nanos) {
+    NANOS.with(|c| c.set(n));
+}
+
 fn set_wall(micros: u64) {
-    MockClock::set_system_time(Duration::from_micros(micros));
+    let ns = NANOS.with(|c| match c.get() {
+        Nanos::Fixed(n) => n,
+        Nanos::Cycle(k) => {
+            c.set(Nanos::Cycle(k + 1));
+            NANO_OFFSETS[k % 4]
+        }
+    });
+    MockClock::set_system_time(Duration::from_micros(micros) + Duration::from_nanos(ns as u64));
 }
 
 fn hts(t: u64, l: u64) -> HybridTimestamp {
@@ -66,8 +90,10 @@ fn check_inc(out: &mut Outcome, b: &Value) {
     let ts = pair(&b["ts"]);
     let wall = b["wall"].as_u64().expect("wall");
     let exp = pair(&b["out"]);
-    for &e in EMBEDDINGS {
+    for (&e, &ns) in EMBEDDINGS.iter().flat_map(|e| NANO_OFFSETS.iter().map(move |n| (e, n))) {
         out.eval();
+        set_nanos(Nanos::Fixed(ns));
+        out.count(&format!("clock+{ns}ns"));
         let ts_e = (embed(ts.0, e), ts.1);
         let exp_e = (embed(exp.0, e), exp.1);
         match increment_at(ts_e, embed(wall, e)) {
@@ -80,7 +106,7 @@ fn check_inc(out: &mut Outcome, b: &Value) {
                     "wall-later"
                 };
                 out.count(class);
-                out.mark_distinct(format!("{}|{}|{:?}", b["ts"], wall, e));
+                out.mark_distinct(format!("{}|{}|{:?}|{ns}", b["ts"], wall, e));
                 if hts(got.0, got.1) <= hts(ts_e.0, ts_e.1) {
                     out.violation(
                         "C18",
@@ -263,6 +289,8 @@ impl Chain {
 
 fn check_chain(out: &mut Outcome, b: &Value) {
     out.eval();
+    // every clock reading of the chain gets the next sub-microsecond offset, starting at another one per chain
+    set_nanos(Nanos::Cycle(out.evaluations as usize));
     let mut chain = Chain::new(out.evaluations <= 3000);
     let mut nontrivial = false;
     for (idx, step) in b["steps"].as_array().expect("steps").iter().enumerate() {
@@ -414,6 +442,7 @@ fn record(args: &Args) {
          call; plus full-range u64 pairs judged by `out > ts` only",
     );
     for run in 0..n {
+        set_nanos(Nanos::Cycle(run));
         trace.event(json!({"ev": "Reset", "run": run}));
         // single increments
         for _ in 0..8 {
